@@ -32,6 +32,8 @@ type C06Params struct {
 	Expect [][]string `json:"expect"`
 	// Universe: every word that could wrongly survive or wrongly appear.
 	Universe []string     `json:"universe"`
+	// Optional: forms that may or may not appear (an entry that one order of competing pairs deletes)
+	Optional []string `json:"optional,omitempty"`
 	Plans    []simrt.Plan `json:"plans"`
 	Kind     string       `json:"kind"` // include | include-except
 	Features []string     `json:"features"`
@@ -276,6 +278,7 @@ func genC06(t *rapid.T, tier string) (*World, any) {
 		}
 	}
 	competing := false
+	optional := map[string]bool{}
 	var typedWords []string
 	for _, e := range survivors {
 		forms := rewriteForms(e, pairs)
@@ -284,12 +287,24 @@ func genC06(t *rapid.T, tier string) (*World, any) {
 		}
 		// drop entries that a `""` replacement turns into nothing (the line becomes blank)
 		nonEmpty := forms[:0:0]
+		mayVanish := false
 		for _, f := range forms {
 			if f != "" {
 				nonEmpty = append(nonEmpty, f)
+			} else {
+				mayVanish = true
 			}
 		}
 		if len(nonEmpty) == 0 {
+			continue
+		}
+		if mayVanish {
+			// competing pairs, one of which deletes: in some application order the entry is rewritten into nothing,
+			// which the statement does not rule out; its other forms are acceptable but not demanded
+			for _, f := range nonEmpty {
+				universe[f] = true
+				optional[f] = true
+			}
 			continue
 		}
 		p.Expect = append(p.Expect, nonEmpty)
@@ -412,6 +427,10 @@ func genC06(t *rapid.T, tier string) (*World, any) {
 		feat["competing"] = true
 	}
 	p.Universe = sortedKeys(universe)
+	p.Optional = sortedKeys(optional)
+	if len(optional) > 0 {
+		competing = true
+	}
 	np := 2
 	if tier == "thorough" {
 		np = 5
@@ -469,6 +488,9 @@ func evalC06(sc *Scenario, sim *Sim) ([]Violation, bool, string) {
 			machinery("cannot compile generated regex %q: %v", out, err)
 		}
 		accepted := map[string]bool{}
+		for _, o := range p.Optional {
+			accepted[o] = true
+		}
 		for _, forms := range p.Expect {
 			ok := false
 			for _, f := range forms {
